@@ -67,3 +67,15 @@ func TestC18(t *testing.T) {
 			return x.Labels["add:ok"] > 0 && (x.Labels["op:remove"] > 0 || x.Labels["op:setmode"] > 0)
 		})
 }
+
+// ---- C13 -------------------------------------------------------------------
+
+var c13Cfg = SGenCfg{RFs: []int{1, 2, 2, 3, 3}, MinOps: 3, MaxOps: 14, FaultPct: 0, RestFail: true, Blocks: 12, NoSpare: true,
+	W: map[string]int{"race": 46, "snapshot": 12, "readd": 16, "remove": 3, "nodedrop": 3, "promotecp": 4, "read": 4}}
+
+func TestC13(t *testing.T) {
+	runStackProperty(t, "C13", "TestC13", func(rt *rapid.T) SProgram { return GenSProgram(rt, c13Cfg) },
+		func(p SProgram, x *SExec) bool {
+			return x.Labels["race:snapshot-ok"] > 0
+		})
+}
